@@ -73,6 +73,66 @@ fn single_layer(rng: &mut Rng, idx: u64, out: &mut Out) {
     } else {
         spatial_layer_case(rng, idx / 6, kind, 8, act)
     };
+    layer_check(rng, kind, l, input, out, idx < 6);
+}
+
+/// Sizes around the powers of two at which blocked / chunked / parallel code paths switch.
+pub const THRESHOLDS: [usize; 24] = [31, 32, 33, 63, 64, 65, 66, 127, 128, 129, 130, 255, 256, 257, 511, 513, 1023, 1025, 2047, 2049, 4095, 4096, 4097, 8193];
+
+/// Layers that are large in one direction: dense layers with up to 8193 inputs or 1025 outputs,
+/// spatial layers with an extent up to 257, up to 17 channels / filters, kernels up to 7,
+/// stride up to 5, padding up to 4, dilation up to 4.
+fn large_layer(rng: &mut Rng, idx: u64, out: &mut Out) {
+    let kinds = ["dense", "conv", "deconv", "pool"];
+    let kind = kinds[(idx % 4) as usize];
+    let act = ALL_ACTS[((idx / 4) % 6) as usize];
+    for _ in 0..200 {
+        let (l, input) = if kind == "dense" {
+            let (n_in, n_out) = match rng.range(0, 3) {
+                0 => (*rng.pick(&THRESHOLDS), rng.range(1, 3)),
+                1 => (rng.range(1, 5), *rng.pick(&THRESHOLDS[..18])),
+                2 => (*rng.pick(&THRESHOLDS[..11]), *rng.pick(&THRESHOLDS[..11])),
+                _ => (rng.range(130, 9000), rng.range(1, 2)),
+            };
+            (LCfg::Dense { n: n_out, act, bias: rng.bool(), dropout: None }, Sh::Flat(n_in))
+        } else {
+            let big = *rng.pick(&THRESHOLDS[..14]);
+            let small = rng.range(1, 6);
+            let (h, w) = if rng.bool() { (big, small) } else { (small, big) };
+            let c = *rng.pick(&[1usize, 2, 3, 4, 8, 9, 16, 17]);
+            let filters = *rng.pick(&[1usize, 2, 4, 5, 8, 9, 17]);
+            let g = |rng: &mut Rng| (rng.range(1, 7), rng.range(1, 5), rng.range(0, 4), rng.range(1, 4));
+            let (k0, s0, p0, d0) = g(rng);
+            let (k1, s1, p1, d1) = g(rng);
+            let l = match kind {
+                "conv" => LCfg::Conv { filters, kernel: (k0, k1), stride: (s0, s1), padding: (p0, p1), dilation: (d0, d1), act, dropout: None },
+                "deconv" => LCfg::Deconv { filters, kernel: (k0, k1), stride: (s0, s1), padding: (p0, p1), act, dropout: None },
+                _ => LCfg::Pool { kernel: (k0, k1), stride: (s0, s1) },
+            };
+            (l, Sh::Sp(c, h, w))
+        };
+        // bound the work of the reference operator
+        let work = match (&l, out_shape(&l, input)) {
+            (_, Err(_)) => continue,
+            (LCfg::Dense { n, .. }, Ok(_)) => n * input.count(),
+            (LCfg::Conv { kernel, .. }, Ok(o)) => o.count() * kernel.0 * kernel.1 * input.spatial().unwrap().0,
+            (LCfg::Deconv { kernel, filters, .. }, Ok(_)) => input.count() * kernel.0 * kernel.1 * filters,
+            (LCfg::Pool { kernel, .. }, Ok(o)) => o.count() * kernel.0 * kernel.1,
+            _ => continue,
+        };
+        if work > 400_000 {
+            continue;
+        }
+        out.cover("large_layer_sizes", format!("{} {}", kind, input.name()));
+        out.count("large_layers", 1);
+        layer_check(rng, kind, l, input, out, idx < 4);
+        return;
+    }
+    out.nontrivial = false;
+    out.count("large_layer_cases_without_a_valid_configuration", 1);
+}
+
+fn layer_check(rng: &mut Rng, kind: &str, l: LCfg, input: Sh, out: &mut Out, sample: bool) {
     let cfg = NetCfg::plain(input, vec![l.clone()]);
     out.key = format!("layer {} on {}", l.describe(), input.name());
     out.cover("layer_geometries", l.geometry());
@@ -124,7 +184,7 @@ fn single_layer(rng: &mut Rng, idx: u64, out: &mut Out) {
     if results.len() == 2 && bits_eq(&results[0], &results[1]) {
         out.count("flat_and_3d_results_bit_identical", 1);
     }
-    if idx < 6 {
+    if sample {
         out.sample = Some(case_json(&cfg, &params, &x));
     }
 }
@@ -198,10 +258,10 @@ impl Monitor for C02 {
         "C02"
     }
     fn gens(&self, tier: Tier) -> Vec<(&'static str, u64)> {
-        vec![("layers", tier.pick(486_000, 4_860_000)), ("networks", tier.pick(60_000, 600_000))]
+        vec![("layers", tier.pick(486_000, 4_860_000)), ("large", tier.pick(6_000, 120_000)), ("networks", tier.pick(60_000, 600_000))]
     }
     fn rule(&self) -> &'static str {
-        "layers: case i -> layer kind (dense, conv, deconv, pool; conv and deconv twice as often), activation (i/6 mod 5), geometry from the covering walk over the 108 per-axis (kernel 1..3, stride 1..3, padding 0..3, dilation 1..3) tuples on each axis independently (rectangular kernels, asymmetric stride/padding/dilation), channels/filters 1..3, extents from the smallest valid one up to 8, repetition-free weights and inputs in [-1.5,1.5], inputs scaled by 1 / 1e-12 / 1e-6 / 1e6 / 1e12; the layer's public forward is called with the 3-D tensor and with its row-major flattening; pre- and post-activation must lie within the running f32 error bound (refmodel::E) of the gather-form reference operator and have its shape. networks: random sequences (depth 1..5, dense->spatial and spatial->dense transitions) - predict and every intermediate output of forward vs the composed reference, predict == manual composition of the layers' own forward (bit-exact), flat input representation too. Distinct = distinct configuration descriptors."
+        "layers: case i -> layer kind (dense, conv, deconv, pool; conv and deconv twice as often), activation (i/6 mod 6, soft-max over the whole layer output included), geometry from the covering walk over the 108 per-axis (kernel 1..3, stride 1..3, padding 0..3, dilation 1..3) tuples on each axis independently (rectangular kernels, asymmetric stride/padding/dilation), channels/filters 1..3, extents from the smallest valid one up to 8, repetition-free weights and inputs in [-1.5,1.5], inputs scaled by 1 / 1e-12 / 1e-6 / 1e6 / 1e12; the layer's public forward is called with the 3-D tensor and with its row-major flattening; pre- and post-activation must lie within the running f32 error bound (refmodel::E) of the gather-form reference operator and have its shape. large: the same check on layers that are large in one direction - dense layers with inputs or outputs from {31..33, 63..66, 127..130, 255..257, 511, 513, 1023, 1025, 2047, 2049, 4095..4097, 8193} or random up to 9000, spatial layers with one extent from the same list up to 257 (the other 1..6), 1..17 channels and filters, kernels 1..7, stride 1..5, padding 0..4, dilation 1..4 (reference work bounded by 4e5 multiply-adds per case). networks: random sequences (depth 1..5, dense->spatial and spatial->dense transitions) - predict and every intermediate output of forward vs the composed reference, predict == manual composition of the layers' own forward (bit-exact), flat input representation too. Distinct = distinct configuration descriptors."
     }
     fn assumptions(&self) -> Vec<&'static str> {
         vec!["'the same result for flat and CxHxW input' is decided by comparing both with the reference within the rounding bound (bit-identity is recorded, not demanded)", "harness built with overflow checks on (debug-profile integer semantics)"]
@@ -211,6 +271,7 @@ impl Monitor for C02 {
         let mut out = Out::new(String::new());
         match gen {
             "layers" => single_layer(&mut rng, idx, &mut out),
+            "large" => large_layer(&mut rng, idx, &mut out),
             "networks" => network_case(&mut rng, idx, &mut out),
             _ => panic!("unknown generator {}", gen),
         }
@@ -219,5 +280,6 @@ impl Monitor for C02 {
     fn finish(&self, _tier: Tier, _seed: u64, agg: &mut Agg) {
         agg.require(agg.set_size("layer_geometries") >= 1500, format!("only {} distinct layer geometries", agg.set_size("layer_geometries")));
         agg.require(agg.count("network_predictions") >= 1000, "too few network predictions".into());
+        agg.require(agg.count("large_layers") >= 2000, "too few large layers".into());
     }
 }
